@@ -6,7 +6,7 @@ from vlib.workers import ALL, WorkerDied, WorkerSet
 
 PROPERTY = "C18"
 LEVEL = "exploration"
-RULE = ("(Children lists may be a 'sandwich': a populated child stack, a hidden child context, another child stack - the connector drawn for each must not depend on a hidden sibling.) Stack trees (depth <= 4, width <= 3) built with the public constructors over a pool of 12 real frames: contexts "
+RULE = ("(In the multi-line trees the NAMES span lines too: the module name of one pool function, the manager's type name, the varname.) (Children lists may be a 'sandwich': a populated child stack, a hidden child context, another child stack - the connector drawn for each must not depend on a hidden sibling.) Stack trees (depth <= 4, width <= 3) built with the public constructors over a pool of 12 real frames: contexts "
         "with every combination of obj / varname / start_line (absent, valid, beyond the file) / description present or "
         "absent, is_async, is_exiting, hide; inner stacks; children mixing child contexts, stub child stacks and populated "
         "child stacks with/without root; leaf; error (single exception or group, constructed or really raised through nested calls, multi-line message, raised group with a raised member, chained with __cause__); frame hide / hide_line / lineno 0 / no line at all (Frame.lineno None, as for a frame between lines on 3.10+); the multi-line error message contains every kind of line boundary (\\n, \\r, \\f, \\x1c, and U+2028 / \\x85 in the non-ASCII trees); all names "
